@@ -153,7 +153,12 @@ def read_text(
             ]
 
     if not blocks:
-        raise ValueError("No files found", urlpath)
+        if blocksize is not None:
+            # read_bytes raises if ``urlpath`` matches no file, so getting here
+            # means that all files are empty: an empty bag, as with blocksize=None
+            blocks = [delayed(list)([])]
+        else:
+            raise ValueError("No files found", urlpath)
 
     if collection:
         blocks = from_delayed(blocks)
